@@ -383,8 +383,16 @@ def run(ck):
             if at is not None and isinstance(at, T.App) and at.op == "index" and at.args[0] == T.sym("S") and at.args[1] and isinstance(at.args[1][0], (tuple, list)) and at.args[1][0][0] == "adv" \
                     and all(tuple(x) == ("slice", None, None, None) for x in at.args[1][1:]):
                 msk = at.args[1][0][1]
+            so = [u_ for u_ in getattr(p.interp, "set_order_uses", []) if any(q_.endswith("extract_refbasis_samples") for q_ in u_[2])]
+            unk_ix = t is not None and any(s_.startswith(("arr:", "ret(", "val:")) or (s_[:1] == "T" and s_[1:].isdigit()) for s_ in t.syms())
             if t == want:
                 ck.ok("C19.R3", name, ex.site())
+            elif so:
+                # "the all-Z rows, in order": row numbers that went through a set have lost their order
+                ck.violation("C19.R3", name + ":in order", so[0][0], "the rows are selected by row numbers taken from a set (%s): the reference-basis samples come back complete but not in the order of the data" % so[0][1],
+                             key="C19.R3|extract_refbasis_samples|rows from a set")
+            elif unk_ix:
+                ck.undecided("C19.R3", name, ex.site(), "the rows are selected by an index the analyser does not follow: %r" % (t,))
             elif t is not None and "lit:'Z'" not in t.syms():
                 ck.violation("C19.R3", name, ex.site(), "the reference basis literal 'Z' is not what rows are compared with: %r" % (t,))
             elif msk is not None and row_mask_table(msk) is not None:
